@@ -685,6 +685,47 @@ theorem hicat_segment_representation_independent (c : HicatCfg) (hA : WF c.segA)
   obtain ⟨pt, _, rfl⟩ := List.mem_map.mp hs
   exact evalSep_eq_evalPts _ xs ys ⟨hicat_wf c hA hB hC, hB, trivial⟩
 
+/-! ## which side of a decision boundary the model takes (round 5)
+
+Where a maker's decision is exactly representable in floating point (dyadic sizes and centres, axis-aligned) the
+harness compares ON the boundary too (`run_exact_boundary`, tolerance 0).  The sides: apertures are **closed**
+(`<=`), obstructing spiders are closed as well — so the *transmitted* set of a spider is open —, the half-plane
+tests of the VLT quadrants are **strict**. -/
+
+/-- the rectangle is closed: value 1 exactly where `|x − cx| ≤ hx ∧ |y − cy| ≤ hy`, edges and corners included -/
+theorem rect_boundary_closed (hx hy cx cy : Rat) (p : Pt) :
+    val (.rect hx hy cx cy) p = 1 ↔ |p.1 - cx| ≤ hx ∧ |p.2 - cy| ≤ hy := by
+  simp only [val, inRect, rabs_eq_abs]
+  by_cases h1 : |p.1 - cx| ≤ hx <;> by_cases h2 : |p.2 - cy| ≤ hy <;> simp [h1, h2, b2r]
+
+/-- the circle is closed: value 1 exactly where `(x − cx)² + (y − cy)² ≤ r²`, the rim included (also `r = 0`:
+the centre alone) -/
+theorem circle_boundary_closed (r cx cy : Rat) (p : Pt) :
+    val (.circle r cx cy) p = 1 ↔ (p.1 - cx) * (p.1 - cx) + (p.2 - cy) * (p.2 - cy) ≤ r * r := by
+  simp only [val, inCircle, sq]
+  by_cases h : (p.1 - cx) * (p.1 - cx) + (p.2 - cy) * (p.2 - cy) ≤ r * r <;> simp [h, b2r]
+
+/-- an axis-aligned finite spider (`c = 1, s = 0`) blocks its closed rectangle: transmitted (value 1) exactly
+**strictly** outside, i.e. the edges `|y − sy| = hw`, `|x − sx| = hl` are dark -/
+theorem spider_boundary_blocked (sx sy hl hw : Rat) (p : Pt) :
+    val (.spider sx sy 1 0 hl hw) p = 0 ↔ |p.1 - sx| ≤ hl ∧ |p.2 - sy| ≤ hw := by
+  simp only [val, inSpider, mul_one, mul_zero, add_zero, sub_zero, abs_le]
+  by_cases h1 : p.1 - sx ≤ hl <;> by_cases h2 : -hl ≤ p.1 - sx <;> by_cases h3 : p.2 - sy ≤ hw <;>
+    by_cases h4 : -hw ≤ p.2 - sy <;> simp [h1, h2, h3, h4, b2r]
+
+/-- an infinite spider along +x (`angle = 0`; the start point is *added*, as the code has it) blocks the closed
+half-strip `x + px ≥ 0`, `|y + py| ≤ hw` -/
+theorem spider_infinite_boundary_blocked (px py hw : Rat) (p : Pt) :
+    val (.spiderInf px py 1 0 hw) p = 0 ↔ 0 ≤ p.1 + px ∧ |p.2 + py| ≤ hw := by
+  simp only [val, inSpiderInf, mul_one, mul_zero, add_zero, sub_zero, abs_le]
+  by_cases h1 : 0 ≤ p.1 + px <;> by_cases h3 : p.2 + py ≤ hw <;> by_cases h4 : -hw ≤ p.2 + py <;>
+    simp [h1, h3, h4, b2r]
+
+/-- the half-plane tests of the VLT quadrants are strict: a point on the line belongs to neither side -/
+theorem halfplane_boundary_open (gt : Bool) (a b c : Rat) (p : Pt) (h : a * p.1 + b * p.2 = c) :
+    val (.halfplane gt a b c) p = 0 := by
+  cases gt <;> simp [val, inHalf, h, b2r]
+
 /-! ## the hypotheses are satisfiable -/
 
 example : WF (HexCfg.mk 1 1 (7/16) [.nonzero (.disk 1)] (.regpoly true 1 (7/8) [(1, 0)] 0 0) [1, 1] (some (1/4))
